@@ -651,7 +651,7 @@ fn worker(msgs: &[Option<JV>], log: &Path, req_timeout: Duration) -> ! {
         let Ok(val) = serde_json::from_str::<Value>(&txt) else { rec.rec(json!({"t": "req", "i": i, "unparsable": true})); continue };
         // safety net of the harness itself: a signal to "process group 0" is only let through inside an own group
         if !own_group && txt.contains("terminateThreads") { rec.rec(json!({"t": "req", "i": i, "unparsable": true})); continue; }
-        rec.rec(json!({"t": "req", "i": i, "msg": val, "at": T0.get_or_init(Instant::now).elapsed().as_millis() as u64}));
+        rec.rec(json!({"t": "req", "i": i, "has": true, "msg": val, "at": T0.get_or_init(Instant::now).elapsed().as_millis() as u64}));
         if tx.send(val).is_err() { continue; }
         sent += 1;
         // the message is dealt with completely when the session asks for the next one (or has ended)
@@ -808,7 +808,7 @@ fn load_answers(p: &Path, n: usize) -> (Vec<Answer>, bool) {
         match v["t"].as_str().unwrap_or("") {
             "req" => {
                 let i = v["i"].as_u64().unwrap_or(0) as usize;
-                if i < n { cur = Some(i); by_i[i].closed = v["closed"] == true; by_i[i].unparsable = v["unparsable"] == true; if !v["msg"].is_null() { by_i[i].sent = Some(v["msg"].clone()); } }
+                if i < n { cur = Some(i); by_i[i].closed = v["closed"] == true; by_i[i].unparsable = v["unparsable"] == true; if v["has"] == true { by_i[i].sent = Some(v["msg"].clone()); } }
             }
             "w" => if let Some(i) = cur {
                 let m = &v["m"];
